@@ -1,5 +1,6 @@
 import QbeeModel.Props.C07
 import QbeeModel.Lemmas.StmtDepth
+import QbeeModel.Lemmas.StmtDepthLazy
 /-
   C10  ON ERROR, RESUME and RESUME NEXT follow statement-level semantics.  Property theorems only.
   (Model/Tick.lean is the code AS REPAIRED: trapped_addr is recorded for divisions by zero; RESUME / RESUME NEXT
@@ -234,3 +235,41 @@ example :
   decide
 
 end Qbee.StmtDepth
+
+namespace Qbee.StmtDepth.Lazy
+
+/-- **the code's bookkeeping refines the model's.**  The machine keeps (index, cell) marks, never removes one when its cell
+    is popped, and validates them by cell identity from the innermost end only when an error is handled
+    (Model/StmtDepthLazy.lean); the model of the theorems above drops a mark the moment its cell is popped.  Seen through
+    `abs` - keep the valid marks - every run of ordinary instructions and GOSUBs is a run of the eager model ... -/
+theorem lazy_refines_eager (evs : List LEv) (hp : ∀ e ∈ evs, e ≠ .handledNext) :
+    ∀ s : LSt, Fresh s → abs (lrun s evs) = run (abs s) (evs.map toEv) ∧ Fresh (lrun s evs) := by
+  induction evs with
+  | nil => intro s hf; exact ⟨rfl, hf⟩
+  | cons e r ih =>
+    intro s hf
+    have h1 := step_refines s hf e (hp e (by simp))
+    have h2 := ih (fun e' he' => hp e' (by simp [he'])) (lstep s e) h1.2
+    refine ⟨?_, h2.2⟩
+    show abs (lrun (lstep s e) r) = run (abs s) (toEv e :: r.map toEv)
+    rw [h2.1, h1.1]
+    rfl
+
+/-- ... and when an error is then handled, the code cuts the stack back to the depth the eager model cuts it back to: the
+    theorems about `stmtDepth` are theorems about what the code computes -/
+theorem lazy_handled_depth (evs : List LEv) (hp : ∀ e ∈ evs, e ≠ .handledNext) (s : LSt) (hf : Fresh s) :
+    (lstep (lrun s evs) .handledNext).stack.length = (step (run (abs s) (evs.map toEv)) .handledNext).depth := by
+  have h := (lazy_refines_eager evs hp s hf).1
+  have := handled_refines_depth (lrun s evs)
+  rw [h] at this
+  simpa [abs] using this
+
+/-- stale marks under a valid one are harmless and a stale mark is never taken for a valid one: GOSUB, RETURN (the mark stays
+    behind), an unrelated push at the same index, GOSUB again, two partial results, an error - the stack is cut back to the
+    second GOSUB's return address -/
+example :
+    (lstep (lrun { stack := [100], next := 101, base := 0, marks := [] }
+      [.gosub, .instr 1 0, .instr 0 1, .instr 1 0, .gosub, .instr 0 2]) .handledNext).stack = [100, 103] := by
+  decide
+
+end Qbee.StmtDepth.Lazy
